@@ -131,7 +131,7 @@ def kernel(case):
     core.assume(l < values.shape[0])
     prove("post.counts", counts.elem((iy, ix)) == SPEC[0].cnt(n, iy, ix))
     prove("post.sums", out.elem((l, iy, ix)) == SPEC[0].acc(n, l, iy, ix))
-    prove("post.shapes", (counts.ndim == 2 and out.ndim == 3) and bool(counts.shape[0] == ny) and bool(counts.shape[1] == nx))
+    prove("post.shapes", core.conj(counts.ndim == 2 and out.ndim == 3, counts.shape[0] == ny, counts.shape[1] == nx))
 
 
 @unit("C05", "hist2d.prange", targets=[PU + ":hist2d"], cases=[{"label": "disjoint_writes"}], replay=NP.replay_hist2d_race)
@@ -201,7 +201,7 @@ def _hist2d_summary(real):
 
         xmin, xmax, ymin, ymax, nx, ny = [sc(v) for v in (xmin, xmax, ymin, ymax, nx, ny)]
         prove("pre.hist2d.range_nonempty", (SV.lift(xmin) < xmax) & (SV.lift(ymin) < ymax))
-        prove("pre.hist2d.lengths", bool(SV.lift(x.shape[0]) == y.shape[0]) and bool(SV.lift(values.shape[1]) == x.shape[0]))
+        prove("pre.hist2d.lengths", core.conj(SV.lift(x.shape[0]) == y.shape[0], SV.lift(values.shape[1]) == x.shape[0]))
         spec = HistSpec(x, y, values, xmin, xmax, nx, ymin, ymax, ny)
         n = x.shape[0]
         out = snp.ndarray.from_elem(lambda idx: spec.acc(n, idx[0], idx[1], idx[2]), (values.shape[0], ny, nx), "float64")
@@ -267,7 +267,7 @@ def histogram2d(case):
     snp.minmax_elim(j)
     prove("kernel.x", spec.x.elem((j,)) == sx["elem"]((j,)))
     prove("kernel.y", spec.y.elem((j,)) == sy["elem"]((j,)))
-    prove("kernel.resolution", bool(SV.lift(spec.nx) == res) and bool(SV.lift(spec.ny) == res))
+    prove("kernel.resolution", core.conj(SV.lift(spec.nx) == res, SV.lift(spec.ny) == res))
     if case["limits"] == "auto":
         # every finite point lies strictly inside the automatic range: counts add up to all points
         prove("auto.covers.x", (spec.xmin < sx["elem"]((j,))) & (sx["elem"]((j,)) < spec.xmax))
